@@ -182,9 +182,65 @@ pub fn terminal_oracle(rep: &mut CaseReport, hist: &History, broker: &Broker, c2
                 if processed {
                     rep.count("c11.server_cancels_checked", 1);
                 }
+                // ... and promptly: when the thread has seen ServerCancelled on the consumer's queue, the CancelOk
+                // is already queued ahead of anything that thread submits afterwards; in these sessions the only
+                // thing it submits on that channel after the drain is the final Channel.Close
+                // (only when that Close was issued after the drain had returned: a channel closed with its consumers
+                // still attached races with the server's cancel and may legitimately overtake the reply)
+                let drain_ret = drain_ret_stamp(hist, &key);
+                let close_invoke = hist.ops.iter().filter(|o| o.ch_id == *ch && matches!(o.op, Op::CloseChannel)).map(|o| o.invoke).min();
+                let close_after_drain = matches!((drain_ret, close_invoke), (Some(r), Some(i)) if i >= r);
+                if !*nowait && processed && oks == 1 && close_after_drain {
+                    if let Some(frames) = per.get(ch) {
+                        let ok_off = frames.iter().find_map(|(off, _, f)| match f {
+                            AMQPFrame::Method(_, AMQPClass::Basic(B::CancelOk(c))) if &c.consumer_tag == tag => Some(*off),
+                            _ => None,
+                        });
+                        // the first frame the thread itself put on that channel after the drain: the Basic.Cancel of
+                        // the consumer's final drop (a server-cancelled consumer still cancels when dropped), or the
+                        // channel's Close
+                        let close_off = frames.iter().find_map(|(off, _, f)| match f {
+                            AMQPFrame::Method(_, AMQPClass::Channel(Ch::Close(_))) => Some(*off),
+                            AMQPFrame::Method(_, AMQPClass::Basic(B::Cancel(c))) if &c.consumer_tag == tag => Some(*off),
+                            _ => None,
+                        });
+                        if let (Some(a), Some(b)) = (ok_off, close_off) {
+                            rep.count("c11.cancelok_before_close_checked", 1);
+                            if b < a {
+                                rep.violate("server-cancel-reply", "cancelok-late", format!("server cancel of {:?} (not nowait): the consumer saw ServerCancelled and was drained, yet the CancelOk (offset {}) was only written behind a frame the thread submitted afterwards (offset {})", key, a, b));
+                                return;
+                            }
+                        }
+                    }
+                }
             }
         }
     }
+}
+
+/// return stamp of the drain (to disconnection) of the consumer `key`
+fn drain_ret_stamp(hist: &History, key: &(u16, String)) -> Option<u64> {
+    let mut threads: BTreeMap<usize, Vec<&OpRec>> = BTreeMap::new();
+    for o in &hist.ops {
+        threads.entry(o.thread).or_default().push(o);
+    }
+    for (_t, ops) in threads {
+        let mut tags: Vec<(u16, String)> = Vec::new();
+        for o in ops {
+            if let Op::Consume { .. } = &o.op {
+                match &o.result {
+                    OpResult::Consumer { tag } => tags.push((o.ch_id, tag.clone())),
+                    _ => tags.push((o.ch_id, String::new())),
+                }
+            }
+            if let (Op::Drain { slot, max: None, .. }, OpResult::Drained { .. }) = (&o.op, &o.result) {
+                if tags.get(*slot) == Some(key) {
+                    return Some(o.ret);
+                }
+            }
+        }
+    }
+    None
 }
 
 fn drained_with(hist: &History, key: &(u16, String), t: &Terminal) -> bool {
@@ -268,6 +324,7 @@ impl Scenario for C11 {
             read_faults: true,
             heartbeat: 0,
             explicit_drop_after_server_cancel: false,
+            empty_publish_before_server_cancel: true,
         };
         let life = gen_life(&mut cs, &lc);
         let (res, world) = run_generated(&life.gen, cs, text, |_| {});
